@@ -106,7 +106,8 @@ class C13(Hist1Prop):
                 if name == "set_dtype" and ret == "REFUSED":
                     b = B(op["h"])
                     if b is not None:
-                        if self.set_dtype_ok(b, op["dtype"]):
+                        finite = not any(x in ("inf", "-inf", None) for x in b["freq"] + b["err2"])
+                        if finite and self.set_dtype_ok(b, op["dtype"]):
                             fails.append(f"refused_valid: set_dtype({op['dtype']}) refused although every value fits: freq {b['freq']} err2 {b['err2']}")
                         if A(op["h"]) != b:
                             fails.append("refused_changed: refused dtype change modified the histogram")
